@@ -137,7 +137,9 @@ CLAIMS = {
         text="Proved for every sequence of try_put / try_get / try_reserve / try_release / try_consume: queue_node: delivered ++ buffered = accepted puts, in order; sequencer_node: the delivered items are "
              "exactly 0,1,2,... in order and each buffered item sits in the slot of its number (stale and duplicate tags refused); buffer_node: delivered + buffered is a permutation of the accepted puts; "
              "all three: the reservation flag is set iff the front slot is the single reserved slot. Tie: the real nodes are driven sequentially through their public interface and compared with the model "
-             "result by result and slot by slot (head, tail, capacity, slot states). Found and fixed: buffer_node::try_get handed out the item held by a pending reservation (6d233aa).",
+             "result by result and slot by slot (head, tail, capacity, slot states). Found and fixed: buffer_node::try_get handed out the item held by a pending reservation (6d233aa). "
+             "limiter_node (LimModel): theorem limiter_never_exceeds_threshold - for any sequence of puts, successor accept/reject outcomes and positive decrements (also from inside the put) my_count + my_tries <= threshold "
+             "and forwarded - requested decrements <= threshold; tie limiter-seq compares result, my_count, my_tries and my_future_decrement with the real node after every operation.",
         note="PARTIAL: priority_queue_node, limiter_node, join_node (queueing / reserving / key_matching), overwrite/write_once/broadcast/split/indexer nodes and forwarding to successors have no Coq model; "
              "priority_queue_node is checked against the node contract sequentially, queue/sequencer/limiter/join graphs with real threads (order, threshold, matching tuples, conservation). "
              "Concurrency inside one node is serialised by its aggregator (not modelled).",
